@@ -191,6 +191,8 @@ def run(ctx):
     commands(ctx, c)
     symbol_binding(ctx)
     aborts(ctx)
+    stream_loops(ctx)
+    lexer_slices(ctx)
 
 
 def binop(ctx):
@@ -563,8 +565,9 @@ ALLOW = {
     "early_parse_single_token:macro:unreachable#1": "NUM_LIT_REGEX has exactly the five alternatives 0..=4 handled above (checked by R14.3)",
     "parse_expr_or_type:unwrap:unwrap#1": "inside `if let Some(Let(..)) = stack.last()`: the stack is non-empty",
     "parse_expr_or_type:unwrap:unwrap#2": "inside a match arm on `stack.last()` = Some(LetScopeOpenMissingClose): the stack is non-empty",
+    "read_command:unwrap:unwrap#1": "the payload of a DeclareConst/DefineConst command is the symbol parse_command just created with ctx.symbol/bv_symbol/array_symbol: it has a name (R14.6 checks that this is the arm's binding)",
 }
-ROOTS = [Pm + "parse_get_value_response", Pm + "parse_get_unsat_assumptions_response", Pm + "parse_expr", Pm + "parse_command"]
+ROOTS = [Pm + "parse_get_value_response", Pm + "parse_get_unsat_assumptions_response", Pm + "parse_expr", Pm + "parse_command", Pm + "read_command"]
 
 
 def aborts(ctx):
@@ -600,3 +603,93 @@ def guarded_decrement(f, n):
     if not (r.get("k") == "lit" and r.get("v") == 1) or (lid is None and field_path(n["l"]) is None):
         return False
     return psanorm.nonzero_at(Index(f["body"]), n, lid, n["l"])
+
+
+def stream_loops(ctx):
+    """R14.7: a truncated command stream ends the reader's loops"""
+    from .c15 import count_used_to_exit
+    ctx.rule("R14.7", "every loop in smt::parser that calls BufRead::read_line uses the returned byte count to leave the loop at end of stream (a truncated / unbalanced command must not spin the reader)")
+    c = ctx.facts.lib("patronus")
+    n = 0
+    for path, fl in c.fns.items():
+        if not path.startswith(Pm) or "::tests::" in path:
+            continue
+        for f in fl:
+            ix = Index(f["body"])
+            per = 0
+            for x in ix.nodes:
+                if x.get("k") == "mcall" and x["name"] == "read_line":
+                    loop = ix.enclosing(x, ("while", "loop", "for"))
+                    if loop is None:
+                        continue
+                    n += 1
+                    per += 1
+                    ok, why = count_used_to_exit(x, ix, loop)
+                    ctx.inst("R14.7", "%s:read_line-in-loop#%d" % (path.split("::")[-1], per), ok, x["sp"],
+                             "%s reads text in a loop and %s: on a stream that ends inside an unbalanced command read_line keeps returning Ok(0) and the loop never ends" % (path, why),
+                             sample={"fn": path, "call": show(x)[:80], "exit": why})
+    ctx.floor("R14.7", "read_line calls inside loops in smt::parser", n, 2)
+
+
+LEXER_NEXT = "<patronus::smt::parser::Lexer<'a> as core::iter::traits::iterator::Iterator>::next"
+
+
+def lexer_slices(ctx):
+    """R14.8: the token slices of the lexer are well-formed ranges"""
+    from .. import lexbounds
+    ctx.rule("R14.8", "every token slice `input[start..pos - k]` of the lexer has start <= end: the distance between the cursor and the start recorded in the lexer state, "
+                      "computed as a least fixed point over the state machine's transitions, is at least k at the slice (an empty comment, an empty |..| symbol, an empty string literal included)")
+    c = ctx.facts.lib("patronus")
+    cands = [p for p in c.fns if p.startswith("<patronus::smt::parser::Lexer") and p.endswith("::next")]
+    if not cands:
+        ctx.violation("ANCHOR", "Lexer::next", None, "the Iterator impl of smt::parser::Lexer was not found")
+        return
+    f = c.fns[cands[0]][0]
+    st_field, cur_field, src_field = "state", "pos", "input"
+    sites, unmodelled, lb, ndisp, max_inc = lexbounds.analyse(f, cur_field, st_field, src_field)
+    ctx.extra["lexer_state_distances"] = {k: (v if v < lexbounds.INF else "unreachable") for k, v in sorted(lb.items())}
+    per = {}
+    for s_ in sites:
+        base = "%s:%s" % (s_["variant"], s_["form"].split("-")[0] if s_["form"].startswith("start") else s_["form"])
+        per[base] = per.get(base, 0) + 1
+        ctx.inst("R14.8", "Lexer::next:%s#%d" % (base, per[base]), s_["ok"], s_["node"].get("sp"),
+                 "in state %s the slice `%s` needs the cursor to be at least %s past the recorded start, but only %s is guaranteed (e.g. right after the state was entered): start > end aborts the lexer"
+                 % (s_["variant"], show(s_["node"])[:80], s_["need"], s_["have"]),
+                 sample={"state": s_["variant"], "slice": show(s_["node"])[:80], "guaranteed_distance": s_["have"], "needed": s_["need"]})
+    ctx.inst("R14.8", "Lexer::next:one-increment-per-character", max_inc <= 1, f["span"],
+             "a visit of the state dispatch advances the cursor by %d, more than the one character the loop consumed: the cursor can run past the input" % max_inc)
+    for n_, why in unmodelled:
+        ctx.not_analysed.append("R14.8: `%s` - %s" % (show(n_)[:60], why))
+    # the cursor and the state are written elsewhere only as a pair restored from a snapshot of the same lexer
+    others = 0
+    for path, fl in c.fns.items():
+        if not path.startswith("patronus::smt::parser::Lexer::") and not path.startswith("<patronus::smt::parser::Lexer"):
+            continue
+        if path == cands[0]:
+            continue
+        for g in fl:
+            for x in walk(g["body"]):
+                if x.get("k") in ("assign", "assignop") and peel(x["l"]).get("k") == "field" and peel(x["l"])["name"] in (st_field, cur_field) and peel(peel(x["l"])["e"]).get("name") == "self":
+                    others += 1
+                    fld = peel(x["l"])["name"]
+                    ok = x.get("k") == "assign" and _restores(x["r"], fld, g)
+                    ctx.inst("R14.8", "%s:writes-%s#%d" % (path.split("::")[-1], fld, others), ok, x.get("sp"),
+                             "%s writes the lexer's `%s` with `%s`, which is not a value saved from the same field: the distance invariant of the state machine is computed from Lexer::next alone" % (path, fld, show(x["r"])[:60]))
+    ctx.floor("R14.8", "token slices in Lexer::next", len(sites), 6)
+
+
+def _restores(r, fld, g):
+    r0 = resolve(peel(r))
+    if r0.get("k") == "field" and r0["name"] == fld and peel(r0["e"]).get("name") == "self":
+        return True
+    # `prev.0` / `prev.1` of `let prev = (self.pos, self.state)`
+    if r0.get("k") == "field" and peel(r0["e"]).get("k") == "local":
+        init = simple_let_init(local_defs(g), peel(r0["e"])["id"])
+        if init is not None and peel(init).get("k") == "tuple":
+            try:
+                el = peel(init)["es"][int(r0["name"])]
+            except (ValueError, IndexError):
+                return False
+            el = peel(el)
+            return el.get("k") == "field" and el["name"] == fld and peel(el["e"]).get("name") == "self"
+    return False
